@@ -20,13 +20,14 @@ def bitsAt (B : Buf) (off : Nat) : Nat → Nat
   | 0 => 0
   | w + 1 => 2 * bitsAt B off w + (B.bit (off + w)).toNat
 
+/-- `k` whole bytes in little-endian order, then `r` more bits on top -/
+def leGo (B : Buf) (off r : Nat) : Nat → Nat
+  | 0 => bitsAt B off r
+  | k + 1 => bitsAt B off 8 + 256 * leGo B (off + 8) r k
+
 /-- deku's little-endian rule for an `n`-bit field without `endian = "big"` (only differs from
 `bitsAt` for `n > 8`): whole bytes in little-endian order, the trailing partial byte on top. -/
-def leBitsAt (B : Buf) (off n : Nat) : Nat :=
-  let k := n / 8
-  let r := n % 8
-  (List.range k).foldl (fun acc i => acc + (bitsAt B (off + 8 * i) 8) * 2 ^ (8 * i)) 0
-    + (bitsAt B (off + 8 * k) r) * 2 ^ (8 * k)
+def leBitsAt (B : Buf) (off n : Nat) : Nat := leGo B off (n % 8) (n / 8)
 
 theorem bitsAt_lt (B : Buf) (off w : Nat) : bitsAt B off w < 2 ^ w := by
   induction w with
